@@ -124,6 +124,8 @@ def jobs(tier):
             for f in firsts:
                 js.append({'name': 'history on->off %s 3 lines first=%s' % (md, f), 'harness': (H, 'h_pair'),
                            'params': {'nlines': 3, 'menu_name': 'small', 'fixed': [f], 'mode': md, 'history': True, 'inc_len': 2, 'out_len': 1}, 'split': 4})
+    from . import project
+    js += project.jobs('C13', tier)
     return js
 
 
